@@ -176,6 +176,10 @@ func c10Check(e *core.Env, r *core.Rand, idx int64, text, rules string, single b
 			if er.Line < prev {
 				e.Violation("errors-not-ascending", fmt.Sprintf("%s: error #%d is on line %d after an error on line %d", en.name, k, er.Line, prev), w)
 			}
+			if k > 0 && t.Errs[k-1].Panic == "" && er.Line == prev && er.Pos == t.Errs[k-1].Pos && er.Len == t.Errs[k-1].Len && er.Code == t.Errs[k-1].Code {
+				// one fault, one report: the very same report twice means that one of two faults is not shown where it is
+				e.Violation("error-reported-twice", fmt.Sprintf("%s: errors #%d and #%d are the same report (%s, line %d, position %d, length %d): %q", en.name, k-1, k, er.Code, er.Line, er.Pos, er.Len, src), w)
+			}
 			prev = er.Line
 			if er.Message != er.Title+": "+er.Details || er.Title == "" {
 				e.Violation("error-message", fmt.Sprintf("%s: error #%d: inconsistent title/details/message", en.name, k), w)
